@@ -1,6 +1,6 @@
 """C13 — a dropped-out sensor sample never corrupts a recursive filter (bounded-exhaustive fault enumeration).
 
-For every recursive filter x architecture x frame (17 configurations) and both entry points (batch constructor;
+For every recursive filter x architecture x frame (19 configurations) and both entry points (batch constructor;
 streaming ``update*`` on a data-less instance, where the class has one) a physically consistent, slowly turning base
 record is built (mc/ref/faults.py) and EVERY fault history of the menu is injected and run to completion on the real
 filter:
@@ -52,6 +52,8 @@ CONFIGS = {
     'UKF-IMU':            ('UKF', 'IMU', None, True, 'left', 0.4, False),
     'AQUA-IMU':           ('AQUA', 'IMU', None, True, 'right', 0.02, False),
     'AQUA-MARG':          ('AQUA', 'MARG', None, True, 'right', 0.02, False),
+    'AQUA-IMU-adaptive':  ('AQUA', 'IMU', None, True, 'right', 0.02, False),          # adaptive=True: the gain is recomputed from every accelerometer sample
+    'AQUA-MARG-adaptive': ('AQUA', 'MARG', None, True, 'right', 0.02, False),
     'Fourati-MARG':       ('Fourati', 'MARG', None, True, 'left', 0.02, False),
     'ROLEQ-MARG-NED':     ('ROLEQ', 'MARG', 'NED', True, 'left', 1e-06, False),
     'ROLEQ-MARG-ENU':     ('ROLEQ', 'MARG', 'ENU', True, 'left', 0.002, False),
@@ -126,6 +128,7 @@ S_UNIT = 'every emitted row is a unit quaternion'
 S_ANGLES = 'W: every emitted angle triple is finite'
 S_RECOVER = 'estimate returns to the fault-free run within the recovery window'
 S_CONTRACT = 'first-sample dropout: deviation from the fault-free run does not grow'
+S_FIRST = 'first-sample dropout accepted by the batch run: estimate returns to the fault-free run within the recovery window'
 
 
 def site(spec, law):
@@ -176,9 +179,10 @@ def build(name):
             inst = F.UKF()
             return lambda q, g, a, m: inst.update(q, g, a)
     elif filt == 'AQUA':
-        s.batch = lambda g, a, m, q0: only_q(F.AQUA(acc=a, mag=m, gyr=g).Q if marg else F.AQUA(acc=a, gyr=g).Q)
+        akw = {'adaptive': True} if name.endswith('-adaptive') else {}
+        s.batch = lambda g, a, m, q0: only_q(F.AQUA(acc=a, mag=m, gyr=g, **akw).Q if marg else F.AQUA(acc=a, gyr=g, **akw).Q)
         def new():
-            inst = F.AQUA()
+            inst = F.AQUA(**akw)
             return (lambda q, g, a, m: inst.updateMARG(q, g, a, m)) if marg else (lambda q, g, a, m: inst.updateIMU(q, g, a))
     elif filt == 'Fourati':
         probe = F.Fourati(magnetic_dip=DIP)
@@ -468,6 +472,11 @@ def evaluate(ctx, spec, entry, att, fault, key, g, a, m, q0, Qb, base_unit, q_in
         ctx.track(f'first.dev_before[{name}]', d0)
         if not d_end <= max(spec.tol, d0):
             ctx.fail(site(spec, S_CONTRACT), key, {'deviation_after_fault': d0, f'deviation_{W}_rows_later': d_end}, f'<= max({spec.tol}, deviation_after_fault)', spec.tol)
+        # the statement makes no exception for the first sample: a record that is ACCEPTED with a dropped first sample must be back at the
+        # fault-free estimates after the window like any other (the IMU filters that start such a record from the identity and
+        # need longer are recorded findings; every MARG filter refuses such a record)
+        if not d_end <= spec.tol:
+            ctx.fail(site(spec, S_FIRST), key, {'deviation_at_judged_rows': d_end, 'deviation_after_fault': d0, 'judged_rows': [j0, N - 1]}, 0.0, spec.tol)
         ctx.outcome((name, entry, 'completed', pos, 'contraction'))
         return
     ctx.cls('recovery:judged')
